@@ -147,10 +147,13 @@ def c08_equality(E):
         E.prove(i != j, "identical-rules-compare-equal", a=str(ta))
 
 
-def c08_remove_genes(E, shapes=SHAPES):
+def c08_remove_genes(E, shapes=SHAPES, generated=False):
     """removing genes leaves every reaction that can still be catalysed with rule == old[R:=false]"""
     env.for_path(E)
-    t0 = instantiate(shapes[E.choice("shape", len(shapes))], PLAIN)
+    if generated:
+        t0 = instantiate(gprspec.gen_tree(E, 2, 4), PLAIN)
+    else:
+        t0 = instantiate(shapes[E.choice("shape", len(shapes))], PLAIN)
     t1 = ("or", "gA", ("and", "gB", "gC"))
     m = Model("rg")
     A, B = Metabolite("A", compartment="c"), Metabolite("B", compartment="c")
@@ -205,6 +208,10 @@ def c08_remove_genes(E, shapes=SHAPES):
     E.prove("R2" in m.reactions and m.reactions.get_by_id("R2").gene_reaction_rule == "", "rule-less-reaction-untouched")
 
 
+def c08_remove_genes_trees(E):
+    return c08_remove_genes(E, generated=True)
+
+
 def c08_thorough_trees(E):
     """generated trees up to depth 3 (fan-out <= 3, <= 4 genes)"""
     env.for_path(E)
@@ -235,6 +242,10 @@ HARNESSES = [
       thorough=dict(max_paths=300000, time_budget=200),
       bounds="model with rule shape (16) + fixed rule + rule-less reaction; every non-empty subset of its genes removed, "
              "remove_reactions on/off, ids/objects"),
+    H("c08_remove_genes_trees", c08_remove_genes_trees, tiers=("thorough",), thorough=dict(max_paths=3000000, time_budget=400),
+      witness_every=500,
+      bounds="as c08_remove_genes with the first rule any generated tree of depth<=3 (leaf = next fresh gene or gene 0; and/or "
+             "with 2-3 children; <=4 genes); sampled when the budget ends first"),
     H("c08_thorough_trees", c08_thorough_trees, tiers=("thorough",), thorough=dict(max_paths=1000000, time_budget=300),
       bounds="all generated trees depth<=3 (leaf = next fresh gene or gene 0; and/or with 2-3 children) x 2 spellings"),
 ]
